@@ -120,6 +120,22 @@ CLAIMED["C12"] = {
     "design_ref": "5 (C12)",
 }
 
+CLAIMED["C04"] = {
+    "text": "Lean theorems: a character without drawing meaning yields exactly one one-character text fragment that shows it "
+            "in its own cell; merging two cell texts shows exactly the (cell, character) pairs the two showed (each "
+            "character at the column of the start plus the buffer columns of its predecessors, double-width = 2); the "
+            "whole merge_recursive of a scope, for every fragment list and any number of passes, and the contact grouping "
+            "preserve the multiset of shown (cell, character) pairs (generic denotation-preservation theorem of the greedy "
+            "loop). End-to-end byte correspondence of the whole model; oracle on the implementation: every text element "
+            "anchored at a cell anchor, shows the input characters at consecutive display columns, every non-drawing "
+            "character covered exactly once, none twice (exhaustive short rows over {a, é, 一, U+0301, space, -} + random).",
+    "note": "Trusted: Lean kernel; correspondence; unicode-width values from the real crate; the passage of texts through "
+            "re-endorsement and the containment forest (flattening emits each fragment once; tags are C16) is covered by "
+            "the oracle, not by a theorem yet.",
+    "technique": "Lean 4 proof (denotation preservation of the greedy merge loop, per-merge text invariant) + byte-level end-to-end correspondence + coverage oracle",
+    "design_ref": "5 (C04)",
+}
+
 NOT_YET = {
 }
 
